@@ -19,6 +19,7 @@ import Upnp.Lemmas.C12Renew
 import Upnp.Lemmas.C12Mon
 import Upnp.Lemmas.C12Rep
 import Upnp.Lemmas.C12Yield
+import Upnp.Lemmas.C12Lapse
 import Upnp.Spec.C12
 namespace Upnp.C12
 open Upnp PyDict
@@ -393,6 +394,99 @@ example :
           | .req r => if r.kind == .renew then some (r.t, r.sid) else none
           | _ => none)
       = [(1000, some 1), (1250, some 2), (2000, some 1), (2000, some 2)] := by
+  decide
+
+/-- **lapse_trace** (the judge's "kept alive" clause, whole-trace form): for every number of services,
+    every publisher script and every sequence of caller operations, the clause monitor `lapseMon` of the
+    run-time judge, run over the model's complete trace, flags nothing.  `lapseMon` recomputes the
+    publisher's expiry table from the request log (arrival + granted timeout) and, while auto-renewal is in
+    force and its decidable flag `calm` holds, demands that every renewal request arrives no later than the
+    expiry of its SID and that no subscription in the table has expired at any snapshot.  `calm` is the
+    latency hypothesis as a predicate on the history: every SUBSCRIBE of the session so far was accepted, every
+    finite granted timeout is at least the tolerance, and every window of `n` consecutive request latencies
+    adds up to less than the tolerance.  Rounds that start without sleeping are included (window argument,
+    `Lemmas/C12Lapse.lean`). -/
+theorem lapse_trace (n : Nat) (script : List Entry) (dflt : Entry) (ops : List Op) :
+    (lapseMon n genCfg.tol genCfg.subTimeout (run genCfg n script dflt ops).trace).bad = [] := by
+  rw [lapseMon_trace]
+  have hsubT : (genCfg.tol : Int) * 1000 ≤ (genCfg.subTimeout : Int) * 1000 := by decide
+  suffices H : ∀ st, Core st → TaskOk st → LP genCfg n st → LP genCfg n (ops.foldl (step genCfg n) st) from
+    (H _ (Core.init script dflt) (by simp [TaskOk, init])
+      ⟨rfl, fun ha => by simp [lapseOf, init] at ha⟩).bad
+  induction ops with
+  | nil => intro st _ _ hi; exact hi
+  | cons op r ih =>
+    intro st h ht hi
+    have hc := step_core genCfg gen_shapes.2.1 n st op h ht
+    refine ih _ hc.1 hc.2 ?_
+    cases op with
+    | sub auto => exact lapse_doSub genCfg gen_shapes.2.2.1 gen_constants.1 hsubT n auto st h hi
+    | wait d => exact lapse_doWait genCfg gen_shapes.1 gen_shapes.2.1 hsubT n d st h ht hi
+    | unsub => exact lapse_doUnsub genCfg gen_shapes.2.1 n st h ht hi
+
+/-- the latency hypothesis, as the judge evaluates it: the monitor is still `calm` after the history -/
+def CalmHistory (n : Nat) (tr : List Ev) : Bool := (lapseMon n genCfg.tol genCfg.subTimeout tr).calm
+
+/-- **renew_before_expiry**: in any history, a renewal request for SID `s` that is issued while auto-renewal
+    is in force and the history so far is calm arrives no later than the expiry the publisher holds for
+    `s` — for every granted timeout ≥ tolerance, every number of services, any number of rounds, rounds
+    started from a sleep or not.  (`tr` is any prefix of a model trace that ends just before the request.) -/
+theorem renew_before_expiry (n : Nat) (script : List Entry) (dflt : Entry) (ops : List Op)
+    (pre post : List Ev) (r : Req) (s : Sid) (e : Time)
+    (htr : (run genCfg n script dflt ops).trace = pre ++ .req r :: post)
+    (hk : r.kind = .renew) (hs : r.sid = some s)
+    (hauto : (lapseMon n genCfg.tol genCfg.subTimeout pre).auto = true)
+    (hcalm : CalmHistory n pre = true)
+    (he : get? (lapseMon n genCfg.tol genCfg.subTimeout pre).expiry s = some (some e)) : r.t ≤ e := by
+  have hbad := lapse_trace n script dflt ops
+  rw [htr] at hbad
+  -- the monitor's flags only grow: had this request been late it would still be flagged at the end
+  have mono : ∀ (evs : List Ev) (m : LapseMon), m.bad ≠ [] → (evs.foldl lapseStep m).bad ≠ [] := by
+    intro evs
+    induction evs with
+    | nil => intro m h; exact h
+    | cons x xs ih =>
+      intro m h
+      simp only [List.foldl_cons]
+      apply ih
+      have fl : ∀ (c : Bool) (w : String), flagged m.bad c w ≠ [] := by
+        intro c w; unfold flagged; split
+        · exact h
+        · simp
+      cases x with
+      | req q => simp only [lapseStep]; exact fl _ _
+      | cb t a b c => exact h
+      | spin t => exact h
+      | snap t a b c d =>
+        simp only [lapseStep]; split
+        · exact fl _ _
+        · exact h
+      | call t c => cases c <;> exact h
+      | ret t c res => cases c <;> exact h
+  have hsplit : lapseMon n genCfg.tol genCfg.subTimeout (pre ++ .req r :: post)
+      = post.foldl lapseStep (lapseStep (lapseMon n genCfg.tol genCfg.subTimeout pre) (.req r)) := by
+    simp [lapseMon, List.foldl_append]
+  rw [hsplit] at hbad
+  have hstep : (lapseStep (lapseMon n genCfg.tol genCfg.subTimeout pre) (.req r)).bad = [] := by
+    cases hb : (lapseStep (lapseMon n genCfg.tol genCfg.subTimeout pre) (.req r)).bad with
+    | nil => rfl
+    | cons x xs => exact absurd hbad (mono post _ (by rw [hb]; simp))
+  unfold CalmHistory at hcalm
+  generalize lapseMon n genCfg.tol genCfg.subTimeout pre = m at hauto hcalm he hstep
+  simp only [lapseStep, hk, hs, hauto, hcalm, lapsed, he, beq_self_eq_true, Bool.true_and, flagged] at hstep
+  by_cases hlt : e < r.t
+  · simp [hlt] at hstep
+  · unfold Time at *; omega
+
+/-- non-vacuity: a calm history with two rounds, the second one starting without a sleep (granted 61 s,
+    the round takes 10 s): every renewal is in time, the history stays calm and auto-renewal is in force -/
+example :
+    let tr := (run genCfg 2 [⟨.ok, .sec 61, 0⟩, ⟨.ok, .sec 300, 0⟩, ⟨.ok, .sec 61, 5000⟩, ⟨.ok, .sec 300, 5000⟩]
+      ⟨.ok, .sec 300, 250⟩ [Op.sub true, Op.wait 100000]).trace
+    CalmHistory 2 tr = true ∧ (lapseMon 2 genCfg.tol genCfg.subTimeout tr).auto = true
+    ∧ (tr.filterMap fun e => match e with
+          | .req r => if r.kind == .renew then some r.t else none
+          | _ => none) = [1000, 6000, 11000, 11250] := by
   decide
 
 /-! ### a failed renewal is reported exactly once -/
